@@ -164,6 +164,7 @@ func (pi *ProgInfo) emitProgram(sb *strings.Builder) {
 		}
 	}
 	sb.WriteString("}\n")
+	fmt.Fprintf(sb, "static int cd_disabled_%s(void) {\n  return cd_obj_%s.private_impl.magic == WUFFS_BASE__DISABLED;\n}\n", pkg, pkg)
 	for _, mi := range pi.Methods {
 		fmt.Fprintf(sb, "static void cd_call_%s_%d(cd_args* a) {\n", pkg, mi.Index)
 		var args []string
@@ -175,7 +176,7 @@ func (pi *ProgInfo) emitProgram(sb *strings.Builder) {
 			case 's':
 				args = append(args, fmt.Sprintf("a->v[%d].s", i))
 			case 'r', 'w':
-				args = append(args, fmt.Sprintf("&a->v[%d].io", i))
+				args = append(args, fmt.Sprintf("(a->v[%d].kind == 4 ? NULL : &a->v[%d].io)", i, i))
 			}
 		}
 		call := fmt.Sprintf("%s__%s(%s)", typ, mi.Name, strings.Join(args, ", "))
@@ -209,8 +210,8 @@ func (pi *ProgInfo) emitProgram(sb *strings.Builder) {
 		fmt.Fprintf(sb, "  {%q, %d, {%s}, %q, %d, cd_call_%s_%d},\n", mi.Name, len(mi.ArgNames), strings.Join(names, ", "), mi.Kinds, co, pkg, mi.Index)
 	}
 	sb.WriteString("};\n")
-	fmt.Fprintf(sb, "static const cd_prog cd_prog_%s = {%q, &cd_obj_%s, sizeof(cd_obj_%s), cd_init_%s, cd_dump_%s, %d, cd_methods_%s};\n",
-		pkg, pkg, pkg, pkg, pkg, pkg, len(pi.Methods), pkg)
+	fmt.Fprintf(sb, "static const cd_prog cd_prog_%s = {%q, &cd_obj_%s, sizeof(cd_obj_%s), cd_init_%s, cd_dump_%s, cd_disabled_%s, %d, cd_methods_%s};\n",
+		pkg, pkg, pkg, pkg, pkg, pkg, pkg, len(pi.Methods), pkg)
 }
 
 func (b *Batch) writeDriver() error {
@@ -331,9 +332,12 @@ func grepLines(s, needle string, n int) string {
 
 // Crash describes a program during which the driver process died.
 type Crash struct {
-	Prog   int
-	Kind   string // "asan:<what>", "ubsan:<what>", "watchdog", "signal:<n>", "exit:<n>"
-	Stderr string
+	Prog int
+	// Partial is the output the program produced before the driver died (the
+	// runtime flushes on death): len(Partial)/8 digests of a C04 section are complete.
+	Partial []byte
+	Kind    string // "asan:<what>", "ubsan:<what>", "watchdog", "signal:<n>", "exit:<n>"
+	Stderr  string
 }
 
 var asanRe = regexp.MustCompile(`ERROR: AddressSanitizer: ([A-Za-z-]+)`)
@@ -411,7 +415,7 @@ func (b *Batch) Run(cfg Config, script []byte, expect []int) (out [][]byte, cras
 		if k >= len(expect) {
 			return out, crashes, fmt.Errorf("driver %s died after the last program: %s", cfg.Name, head(se.String(), 5))
 		}
-		crashes = append(crashes, Crash{Prog: k, Kind: classifyCrash(code, sig, se.String()), Stderr: head(se.String(), 25)})
+		crashes = append(crashes, Crash{Prog: k, Partial: append([]byte{}, data...), Kind: classifyCrash(code, sig, se.String()), Stderr: head(se.String(), 25)})
 		out[k] = nil
 		from = k + 1
 	}
